@@ -20,6 +20,7 @@ import Oas3Model.Driver.Inject
 import Oas3Model.Driver.ReqInterop
 import Oas3Model.Driver.Valid
 import Oas3Model.Driver.DefaultsDoc
+import Oas3Model.Driver.ValidSites
 open Lean Oas3.Driver
 
 def allOps : List (String × Handler) := List.flatten [
@@ -44,6 +45,7 @@ def allOps : List (String × Handler) := List.flatten [
   Oas3.Driver.ReqInterop.ops,
   Oas3.Driver.Valid.ops,
   Oas3.Driver.DefaultsDoc.ops,
+  Oas3.Driver.ValidSites.ops,
   []]
 
 def handleLine (line : String) : String :=
